@@ -32,4 +32,13 @@ end M2
 def rem1 (x y : R) : R :=
   if Num.ltb x Num.zero then x + y else if Num.leb y x then x - y else x
 
+/-- exception classes of the alias code -/
+inductive Err | keyError | valueError | typeError
+  deriving DecidableEq, Repr
+
+/-- insertion-ordered dict assignment `d[k] = v` -/
+def dset : List (String × R) → String → R → List (String × R)
+  | [], k, v => [(k, v)]
+  | (a, x) :: rest, k, v => if a = k then (a, v) :: rest else (a, x) :: dset rest k v
+
 end QuantemModel.Aberration
